@@ -189,6 +189,21 @@ CHECKS = [
                 "property's quantifier; signal delivery is modelled by raising from callbacks.",
     },
     {
+        "property_id": "C16",
+        "level": "exploration",
+        "technique": "exhaustive enumeration of the stager on a lattice of counts and window settings plus "
+                     "Hypothesis-generated sampler runs whose main-stage step size and metric are re-derived from the "
+                     "recorded warm-up history",
+        "text": "Stager.stages is checked as a pure function on every point of a lattice (warm-up 0..200/400 x window "
+                "settings x adapter mixes x main counts) for exact partition, final main stage, fast/slow adapter "
+                "placement, recording flags and termination; real runs with warm-up tracing verify that the main stage "
+                "runs with exactly the step size and metric finalised by the last warm-up stage that performed updates "
+                "and that neither changes during the main stage.",
+        "design_ref": "DESIGN.md section 2, C16",
+        "note": "Window sizes >= 1 and multipliers >= 1; references reuse C17's independent dual-averaging recursion "
+                "and exact pooled estimators.",
+    },
+    {
         "property_id": "C17",
         "level": "exploration",
         "technique": "property-based testing (Hypothesis): dual-averaging recursion re-implemented from the paper; "
